@@ -190,7 +190,8 @@ def gen_case(rng: random.Random, tier: str) -> dict:
     if rng.random() < 0.3:
         gen.add_falsy_consts(rng, g, 0.2)  # outputs whose VALUE is None / 0 / "" / []: produced, not missing (also across an inner select)
     return {"siblings": rng.random() < 0.3, "nested_edges": rng.choice([False, False, False, True, "split"]), "graph": g, "inputs": inp, "cuts": cuts, "rename": ren, "inner_select": rng.random() < 0.25, "bind_inner": rng.random() < 0.7,
-            "touch": rng.choice([[], [], ["spec"], ["graph"], ["spec", "graph"]]), "bind_conflict": rng.random() < 0.3, "async": [gen.gen_async_cfg(rng, allow_hold=True) for _ in range(2)]}
+            "touch": rng.choice([[], [], ["spec"], ["graph"], ["spec", "graph"]]), "bind_conflict": rng.random() < 0.3, "async": [gen.gen_async_cfg(rng, allow_hold=True) for _ in range(2)],
+            "wrap_top": rng.random() < 0.25}
 
 
 # ------------------------------------------------------------------ nesting
@@ -346,6 +347,11 @@ def run_case(doc: dict) -> dict:
     try:
         nspec, rho, info, outer_bind = build_nested(doc)
         _strip(nspec)
+        if doc.get("wrap_top"):
+            # the whole nested program, bindings included, sits one level further down in an otherwise empty graph: what the
+            # top graph surfaced (merged binding tables, renamed inputs) is now read by an enclosing graph as well
+            nspec = {"name": "TT", "nodes": [{"kind": "graph", "name": "top", "graph": dict(nspec, bind=dict(outer_bind))}], "order": [0]}
+            outer_bind = {}
         if doc.get("siblings"):
             nspec = gen.with_api(nspec, {"siblings": True})  # decoy graphs / wrapper variants derived from the same objects
         if doc.get("nested_edges"):
@@ -451,6 +457,8 @@ def run_case(doc: dict) -> dict:
     res["hdigest"] = hist_digest(rts)
     res["stats"]["rename_style_" + doc["rename"]["style"]] = 1
     res["stats"]["cut_depth_%d" % len(doc["cuts"])] = 1
+    if doc.get("wrap_top"):
+        res["stats"]["whole_program_one_level_deeper"] = 1
     return res
 
 
@@ -494,7 +502,7 @@ def shrink_candidates(doc: dict):
                 c = copy.deepcopy(doc)
                 c["rename"]["style"] = st
                 yield c
-    for key in ("inner_select", "bind_inner"):
+    for key in ("inner_select", "bind_inner", "wrap_top", "siblings", "bind_conflict"):
         if doc.get(key):
             c = copy.deepcopy(doc)
             c[key] = False
